@@ -1,5 +1,5 @@
 //@file src/half_connection/frame_queue.rs
-//@props C15
+//@props C15 C03
 #[cfg(test)]
 mod verif_native {
     use super::*;
@@ -28,5 +28,22 @@ mod verif_native {
         fq.acknowledge_group(frame::AckGroup { base_id: 0, bitfield: 3, nonce: true }, None);
         assert!(fq.get_feedback(2000).is_none());
         assert!(!fq.frame_log.get_frame(0).unwrap().acked);
+    }
+
+    // an ack group whose span starts on a frame the sender has already forgotten (bit 0 clear, a higher bit naming a
+    // frame that is still logged, either nonce): must be ignored without panicking
+    #[test]
+    fn verif_c15_span_starting_on_forgotten_frame() {
+        for nonce in [false, true] {
+            let mut fq = FrameQueue::new(4096, 4096, 0);
+            fq.push(10, 1000, Vec::new().into_boxed_slice(), true);
+            fq.push(10, 5000, Vec::new().into_boxed_slice(), true);
+            fq.push(10, 5000, Vec::new().into_boxed_slice(), false);
+            fq.forget_frames(2000, None);                       // frame 0 (sent at 1000) is forgotten
+            assert!(fq.frame_log.get_frame(0).is_none() && fq.frame_log.get_frame(1).is_some());
+            fq.acknowledge_group(frame::AckGroup { base_id: 0, bitfield: 0b10, nonce }, None);
+            assert!(fq.get_feedback(6000).is_none(), "ack group covering a forgotten frame produced feedback");
+            assert!(!fq.frame_log.get_frame(1).unwrap().acked);
+        }
     }
 }
